@@ -540,6 +540,52 @@ def rule_loop_exit(ctx):
     ctx.check(ok, pj.fq, "draining is the only early exit before the poll", "pop_next_job returns None for another reason before consulting the database", "if self.draining: return None", where=ctx.where_of(pj))
 
 
+RESOLVING = {"set_state", "mark_completed", "_reset_step_to_pending", "_finalize_failed_run"}
+
+
+def rule_transient_state_resolved(ctx):
+    """R-C10-9: CHECKING and RUNNING are transient: every job handler leaves them on every exit path.
+
+    pop_next_job moves the step out of PENDING; the dispatch predicate only selects PENDING steps, and the
+    end-of-phase test looks for eligible (PENDING) steps only.  A handler path that returns without giving
+    the step a resting state leaves an eligible-looking step out of every later decision: it is neither
+    dispatched again nor counted.
+    """
+    nr = ctx.prog.func("executor.Executor._new_run")
+    # summary of _new_run: whenever it returns no hash it has finalised the run (R-C03-3 decides the details)
+    none_paths = 0
+    for tr, st in flow.paths_of(nr):
+        rets = [e for e in tr if e[0] == "return"]
+        if not rets or not re.search(r",\s*None\)?$", rets[-1][1].strip()):
+            continue
+        none_paths += 1
+        fin = any(e[0] == "call" and e[1].split(".")[-1] == "_finalize_failed_run" for e in tr)
+        ctx.check(fin, nr.fq, "returning no hash implies the run was finalised as failed", "a path returns (run, None) with the step still in its transient state", "_finalize_failed_run on the path", where=ctx.where_of(nr))
+    if none_paths == 0:
+        raise AnalysisError("_new_run: no path returning (run, None) found")
+    ff = ctx.prog.func("executor.Executor._finalize_failed_run")
+    ctx.check(any(callee_name(c) == "mark_completed" for c in calls_in(ff.node)), ff.fq, "finalising records a completion", "no mark_completed", "mark_completed")
+    rp = ctx.prog.func("executor.Executor._reset_step_to_pending")
+    ctx.check(any(callee_name(c) == "set_state" and c.args and ast.unparse(c.args[0]) == "StepState.PENDING" for c in calls_in(rp.node)), rp.fq, "puts the step back to PENDING", "no set_state(PENDING)", "set_state(PENDING)")
+    for fq in ("executor.Executor.validate_dynamic_job", "executor.Executor.try_skip_job", "executor.Executor.execute_job"):
+        fi = ctx.prog.func(fq)
+        n = 0
+        for tr, st in flow.paths_of(fi):
+            if st not in ("return", "fall"):
+                continue
+            n += 1
+            calls = [(k, e[1].split(".")[-1]) for k, e in enumerate(tr) if e[0] == "call"]
+            resolved = any(nm in RESOLVING for _, nm in calls)
+            # early return right after _new_run returned no hash
+            tests = [(e[1], e[2]) for e in tr if e[0] == "test"]
+            early = tests[:1] == [("new_hash is None", True)] and any(nm == "_new_run" for _, nm in calls)
+            if not (resolved or early):
+                ctx.bad(fq, "every exit gives the step a resting state", f"a path (tests {tests[:4]}) returns with the step still CHECKING/RUNNING: it is never selected again and the phase ends without it", where=ctx.where_of(fi))
+                break
+        else:
+            ctx.check(n > 0, fq, "every exit gives the step a resting state", "no exit path", f"{n} paths")
+
+
 def rule_defer_cap(ctx):
     """R-C10-7: every accepted defer passed the counter and the cap."""
     fi = ctx.prog.func("step.Step.mark_completed")
@@ -581,6 +627,7 @@ RULES = [
     Rule("R-C10-5", "wake-ups after eligibility-changing events", rule_wakeups, min_instances=9),
     Rule("R-C10-6", "job_loop returns only after an empty poll", rule_loop_exit, min_instances=3),
     Rule("R-C10-7", "defer cap", rule_defer_cap, min_instances=5),
+    Rule("R-C10-9", "job handlers leave the transient states on every exit", rule_transient_state_resolved, min_instances=6),
     Rule("R-C10-8", "'needed' is computed from attached consumers, targets and declared need", C11.rule_read_set, min_instances=10),
 ]
 
@@ -590,6 +637,9 @@ def _drop_trigger(name):
 
 
 MUTANTS = [
+    Mutant("validated-step-stays-checking", "executor.py", in_function("Executor.validate_dynamic_job", replace_once("        async with self.db:\n            step.set_state(StepState.PENDING)\n", "")), ("R-C10-9",)),
+    Mutant("noskip-stays-checking", "executor.py", in_function("Executor.try_skip_job", replace_once("            await self._noskip(run, step_hash, new_hash)\n            await self._reset_step_to_pending(step)\n            # The output files", "            await self._noskip(run, step_hash, new_hash)\n            # The output files")), ("R-C10-9",)),
+    Mutant("cancelled-out-hash-stays-checking", "executor.py", in_function("Executor.try_skip_job", replace_once("            await self._finalize_failed_run(run)\n            return\n", "            return\n")), ("R-C10-9",)),
     Mutant("safe-merge-by-min", "scheduler.py", replace_once("SELECT i, safe, safe_nh FROM (SELECT i, safe, safe_nh, MAX(depth) FROM trace GROUP BY i)", "SELECT i, MIN(safe), MIN(safe_nh) FROM trace GROUP BY i"), ("R-C10-4",)),
     Mutant("seed-from-flagged-creator", "scheduler.py", replace_once("    WHERE s._check_safe AND NOT COALESCE(creator_step._check_safe, 0)\n", "    WHERE s._check_safe\n"), ("R-C10-4",)),
     Mutant("revalidated-not-propagated", "step.py", in_function("Step.mark_completed", replace_once("                    file.set_state(FileState.BUILT)\n                    self.graph.mark_consuming_steps_pending(file)\n", "                    file.set_state(FileState.BUILT)\n")), ("R-C10-5",)),
